@@ -26,11 +26,15 @@ import (
 )
 
 type replayFile struct {
-	Property  string        `json:"property"`
-	Signature string        `json:"signature"`
-	Detail    string        `json:"detail"`
-	Case      core.Case     `json:"case"`
-	Result    oracle.Result `json:"result"`
+	// HistoryFrom: the violating case was executed in a worker process that had executed the generated cases
+	// [HistoryFrom, case.index) before; replay uses this history when the case alone does not reproduce the violation
+	// (state leaking between calls)
+	HistoryFrom int           `json:"history_from"`
+	Property    string        `json:"property"`
+	Signature   string        `json:"signature"`
+	Detail      string        `json:"detail"`
+	Case        core.Case     `json:"case"`
+	Result      oracle.Result `json:"result"`
 }
 
 type caseOutcome struct {
@@ -270,7 +274,9 @@ func driverMain(args []string) int {
 	var cwg sync.WaitGroup
 	for i := range d.outcomes {
 		o := &d.outcomes[i]
-		if o.status != "timeout" {
+		if o.status != "timeout" || p.Race {
+			// race-detector batches are long: a timeout there is left as "did not return" (a C01 matter); the race
+			// oracle has already collected every report of the worker
 			continue
 		}
 		cmu.Lock()
@@ -715,7 +721,7 @@ func (d *driver) finish(total int, slow []int, wall time.Duration) int {
 		os.MkdirAll(repDir, 0o755)
 		h := sha256.Sum256([]byte(s))
 		path := filepath.Join(repDir, hex.EncodeToString(h[:6])+".json")
-		rf := replayFile{Property: p.ID, Signature: s, Detail: v.detail, Result: v.first.res}
+		rf := replayFile{Property: p.ID, Signature: s, Detail: v.detail, Result: v.first.res, HistoryFrom: v.first.res.ProcFrom}
 		if v.first.idx >= 0 {
 			rf.Case = *p.Gen(d.seed, d.tier, v.first.idx)
 		} else {
@@ -874,6 +880,20 @@ func replayMain(args []string) int {
 	}
 	if open && status == "held" {
 		status, sig = "violated", "DEATH/fatal/"+classifyCrash(string(out))
+	}
+	if status != oracle.Violated && rf.HistoryFrom < rf.Case.Index && rf.Case.Index-rf.HistoryFrom <= 20000 {
+		// the case alone holds: repeat it after the same history of calls in one process
+		jpath2 := filepath.Join(dir, "journal2")
+		cmd := exec.Command(workerExe, "worker", "-prop", rf.Property, "-tier", rf.Case.Tier, "-seed", strconv.FormatInt(rf.Case.Seed, 10),
+			"-from", strconv.Itoa(rf.HistoryFrom), "-to", strconv.Itoa(rf.Case.Index+1), "-journal", jpath2, "-budget", strconv.Itoa(5*budget))
+		cmd.CombinedOutput()
+		_, _, outs2 := d.readJournal(jpath2)
+		for _, o := range outs2 {
+			if o.idx == rf.Case.Index && o.status == "ok" && o.res.Verdict == oracle.Violated {
+				status, sig, detail = o.res.Verdict, o.res.Sig, o.res.Detail
+				fmt.Printf("the case alone holds; the violation needs the history of generated cases [%d,%d) executed before it in the same process\n", rf.HistoryFrom, rf.Case.Index)
+			}
+		}
 	}
 	if status == oracle.Violated && strings.HasPrefix(sig, "DEATH/") {
 		if !p.DeathIsViolation {
